@@ -371,6 +371,16 @@ class HostValue:
         self.obj = obj
 
 
+class OpaqueMatch:
+    """A successful match on a symbolic subject: truthy, nothing else."""
+
+    def __init__(self, pattern):
+        self.pattern = pattern
+
+    def __repr__(self):
+        return '<match of %r>' % self.pattern
+
+
 def wrap_host(v):
     if v is None or isinstance(v, (int, str, bytes, float, bool)):
         return v
@@ -391,6 +401,27 @@ def pattern_method(it, pat, name, args, kw):
     if all(isinstance(a, (str, int)) for a in args):
         rx = _re_mod.compile(pat.pattern, pat.flags)
         return wrap_host(it.host_call(getattr(rx, name), *args, **kw))
+    if name in ('match', 'fullmatch', 'search') and len(args) == 1 and \
+            not kw and isinstance(args[0], SStr):
+        # whether the pattern matches is decided through its regular
+        # language (regex.py, the CPython parse tree of the real pattern);
+        # the match object itself is opaque: only its truth is modelled
+        from . import regex
+        import re as _re
+        mode = {'match': 'match', 'fullmatch': 'full',
+                'search': 'search'}[name]
+        try:
+            lang = regex.Lang(pat.pattern, int(pat.flags) & ~int(_re.UNICODE),
+                              mode)
+            member = z3.InRe(args[0].e, lang.z3())
+        except Unsupported:
+            raise
+        except Exception as e:      # construct outside the translator
+            raise Unsupported('regex %r not translatable: %s' % (
+                pat.pattern, e))
+        if it.truth(mk_bool(member)):
+            return OpaqueMatch(pat.pattern)
+        return None
     raise Unsupported('regex %s on a symbolic string (pattern %r)'
                       % (name, pat.pattern[:40]))
 
